@@ -54,8 +54,12 @@ H_PREFANN = (0x0350, R.data_wire([R.comp('ann')], b''))
 H_UNK1 = (0x0354, b'\xaa\xbb')        # 852: unassigned, ignorable
 H_UNK2 = (0x03bc, b'')                # 956: unassigned, ignorable
 H_TOKEN = (R.LP_PIT_TOKEN, b'\x09\x08\x07\x06')
+# unknown headers with an ODD Type: the statement says unknown envelope headers are ignored and makes no exception for them
+# (the library reads envelopes with the critical-bit rule switched off)
+H_UNK_ODD1 = (0x0323, b'\x01')
+H_UNK_ODD2 = (0x63, b'')
 HEADER_SETS = [
-    [], [H_INFACE], [H_CONG], [H_UNK1], [H_UNK2, H_UNK1], [H_CACHE, H_NONDISC],
+    [], [H_INFACE], [H_CONG], [H_UNK1], [H_UNK2, H_UNK1], [H_CACHE, H_NONDISC], [H_UNK_ODD1], [H_UNK_ODD2, H_CONG, H_UNK_ODD1],
     [H_INFACE, H_NEXTHOP, H_CACHE, H_CONG, H_TXSEQ, H_NONDISC, H_PREFANN, H_UNK1, H_UNK2],
     [H_TXSEQ, H_PREFANN], [H_TOKEN],
 ]
